@@ -83,6 +83,12 @@ func checkMain(args []string) int {
 	outDir := filepath.Join(*verif, "out", fmt.Sprintf("%s-%s-%d", prop, *tier, os.Getpid()))
 	os.MkdirAll(outDir, 0o755)
 	opts := solveOpts{outDir: outDir, quickS: 20, retryS: 60, seed: seed, keep: *keep}
+	opts.known = map[string]bool{}
+	for _, k := range loadKnown(filepath.Join(*verif, "known_findings.json")).Findings {
+		if k.Property == prop {
+			opts.known[k.Obligation] = true
+		}
+	}
 	if *tier == "thorough" {
 		opts.quickS, opts.retryS = 60, 180
 	}
